@@ -222,6 +222,19 @@ func Generate(genseed uint64, stream string, thorough bool) *Case {
 	c.FindSucc = r.Chance(1, 3)
 
 	switch stream {
+	case "claim":
+		// simultaneous claims: an index over 3 manifests that all list ONE config and ONE layer, the layer 6-8 times;
+		// K = 8, memory stores, no latencies: syncutil.Go spawns up to 8 goroutines for the same descriptor back to
+		// back and all of them call status.Tracker.TryCommit within nanoseconds.  Exactly one may win the claim
+		// (one fetch, one push, one PreCopy / PostCopy per node)
+		c.Root = addClaimFan(r, g)
+		c.Graph = g.Encode()
+		c.Mode, c.Src, c.Dst = "g", "mem", "mem"
+		c.K = common.Pick(r, []int{8, 8, 6, 0})
+		c.MapRoot, c.Platform, c.Mount, c.RefFetch, c.Fast, c.Slow = -1, "", false, false, true, false
+		for k := range set {
+			delete(set, k)
+		}
 	case "cancel":
 		// the caller's context ends: before the call, right after the source reference was resolved (before
 		// the root task starts), or after the k-th event for every k up to the length of a run
@@ -497,6 +510,33 @@ func Generate(genseed uint64, stream string, thorough bool) *Case {
 		} else {
 			c.FailCb = common.Pick(r, []string{"pre", "post"})
 		}
+		// C04's abort clause: half of the cases fail a node that >= 2 predecessors inside the copied graph share,
+		// mostly with slow storage and K >= 2, so that one predecessor still waits for it when the callback fails
+		if r.Chance(1, 2) {
+			var shared []int
+			for _, k := range ids {
+				np := 0
+				for _, p := range ids {
+					if inSet(g.Nodes[p].Succ, k) {
+						np++
+					}
+				}
+				if np >= 2 && !g.Nodes[k].Foreign() {
+					shared = append(shared, k)
+				}
+			}
+			if len(shared) > 0 {
+				c.FailNode = common.Pick(r, shared)
+				c.FailCb = "skip"
+				if !set[c.FailNode] {
+					c.FailCb = common.Pick(r, []string{"pre", "post"})
+				}
+				c.Slow = r.Chance(2, 3)
+				if c.K == 1 {
+					c.K = 2
+				}
+			}
+		}
 	}
 	// the destination reference may exist already, pointing at some other pre-populated content
 	if (c.Mode == "t" || c.Mode == "r" || c.Mode == "X") && c.Dst != "remote" && len(set) > 0 && r.Chance(1, 3) {
@@ -523,6 +563,53 @@ func Generate(genseed uint64, stream string, thorough bool) *Case {
 		c.D0 = append(c.D0, k)
 	}
 	sort.Ints(c.D0)
+	// (last draw, so that the other choices of a generator seed stay what they were) CopyGraph with a limiter the
+	// harness can read: permits taken vs operations in flight at every event, all permits free after the return
+	if c.Mode == "g" && r.Chance(1, 2) {
+		c.OwnLim = true
+	}
+	if stream == "contention" && wideRoot >= 0 && c.K != 1 && r.Chance(1, 2) {
+		// the 8..14 manifests of the wide fan share one config blob: released together from FindSuccessors, up to K of
+		// them claim it (status.Tracker.TryCommit) at the same instant -- the claim must have exactly one winner
+		c.Barrier, c.FindSucc = true, true
+	}
+	if stream == "cbfail" && !c.Slow && c.Mode == "g" && r.Chance(2, 3) {
+		// single-P schedule, (almost) no yields, limiter observed: a goroutine spawned by eg.Go starts only when
+		// its spawner blocks, so a failing PreCopy cancels the group while siblings are spawned but not started
+		c.OneP, c.Fast, c.OwnLim = true, true, true
+		c.Src, c.Dst = "mem", "mem" // (file I/O would hand the P over at every system call)
+		if c.K == 1 {
+			c.K = 3
+		}
+		c.Root = bigRoot()
+		inD0 := map[int]bool{}
+		for _, k := range c.D0 {
+			inD0[k] = true
+		}
+		var cands []int
+		for k := range g.Reach(c.Root) {
+			kids := map[int]bool{}
+			for _, x := range g.Nodes[k].Succ {
+				if !g.Nodes[x].Foreign() && !inD0[x] {
+					kids[x] = true
+				}
+			}
+			if len(kids) >= 2 && !inD0[k] {
+				for x := range kids {
+					cands = append(cands, x)
+				}
+			}
+		}
+		sort.Ints(cands)
+		if len(cands) > 0 {
+			c.FailNode, c.FailCb = common.Pick(r, cands), "pre"
+			if !c.CbIsSet("pre") {
+				bits := []byte(c.cbBits())
+				bits[0] = '1'
+				c.CbSet = string(bits)
+			}
+		}
+	}
 	return c
 }
 
@@ -595,6 +682,42 @@ func addBlobTwin(r *common.Rand, g *dag.Graph) {
 	}
 }
 
+// addClaimFan appends an index over three image manifests that share one config blob and one layer; every manifest
+// lists the layer 6-8 times.  Returns the index.
+func addClaimFan(r *common.Rand, g *dag.Graph) int {
+	desc := func(mt string, bs []byte) ocispec.Descriptor {
+		return ocispec.Descriptor{MediaType: mt, Digest: digest.FromBytes(bs), Size: int64(len(bs))}
+	}
+	cb := []byte(fmt.Sprintf("claim-config-%x", r.U64()))
+	cfg := &dag.Node{ID: len(g.Nodes), Kind: dag.KConfig, Bytes: cb, Desc: desc(ocispec.MediaTypeImageConfig, cb), Subject: -1, TwinOf: -1}
+	g.Nodes = append(g.Nodes, cfg)
+	lb := []byte(fmt.Sprintf("claim-layer-%x", r.U64()))
+	l := &dag.Node{ID: len(g.Nodes), Kind: dag.KBlob, Bytes: lb, Desc: desc(ocispec.MediaTypeImageLayer, lb), Subject: -1, TwinOf: -1}
+	g.Nodes = append(g.Nodes, l)
+	ix := ocispec.Index{MediaType: ocispec.MediaTypeImageIndex}
+	ix.SchemaVersion = 2
+	var members []int
+	for i := 0; i < 3; i++ {
+		m := ocispec.Manifest{MediaType: ocispec.MediaTypeImageManifest, Config: cfg.Desc,
+			Annotations: map[string]string{"verif.claim": fmt.Sprint(i)}}
+		succ := []int{cfg.ID}
+		for k, n := 0, 6+r.Intn(3); k < n; k++ {
+			m.Layers = append(m.Layers, l.Desc)
+			succ = append(succ, l.ID)
+		}
+		m.SchemaVersion = 2
+		bs, _ := json.Marshal(m)
+		im := &dag.Node{ID: len(g.Nodes), Kind: dag.KImage, Subject: -1, TwinOf: -1, Succ: succ, Bytes: bs, Desc: desc(m.MediaType, bs)}
+		g.Nodes = append(g.Nodes, im)
+		members = append(members, im.ID)
+		ix.Manifests = append(ix.Manifests, im.Desc)
+	}
+	bs, _ := json.Marshal(ix)
+	rt := &dag.Node{ID: len(g.Nodes), Kind: dag.KIndex, Subject: -1, TwinOf: -1, Succ: members, Bytes: bs, Desc: desc(ix.MediaType, bs)}
+	g.Nodes = append(g.Nodes, rt)
+	return rt.ID
+}
+
 // addLayerZoo appends an image manifest whose layer list mixes every layer media type the code
 // distinguishes: two or three non-distributable (foreign) layers of different types with distributable
 // layers (tar, tar+gzip, tar+zstd, docker) between and after them, in a PRNG order that always has a
@@ -658,9 +781,18 @@ func addWideFan(r *common.Rand, g *dag.Graph) int {
 		l := &dag.Node{ID: len(g.Nodes), Kind: dag.KBlob, Bytes: lb, Desc: desc(ocispec.MediaTypeImageLayer, lb), Subject: -1, TwinOf: -1}
 		g.Nodes = append(g.Nodes, l)
 		m := ocispec.Manifest{MediaType: ocispec.MediaTypeImageManifest, Config: cfg.Desc, Layers: []ocispec.Descriptor{l.Desc}}
+		succ := []int{cfg.ID, l.ID}
+		if i%2 == 1 {
+			// the same layer listed 3-5 times: syncutil.Go spawns that many goroutines for ONE descriptor back to back,
+			// all of which claim it (status.Tracker.TryCommit) within nanoseconds -- exactly one may win
+			for k, dup := 0, 2+int(lb[len(lb)-1])%3; k < dup; k++ {
+				m.Layers = append(m.Layers, l.Desc)
+				succ = append(succ, l.ID)
+			}
+		}
 		m.SchemaVersion = 2
 		bs, _ := json.Marshal(m)
-		im := &dag.Node{ID: len(g.Nodes), Kind: dag.KImage, Subject: -1, TwinOf: -1, Succ: []int{cfg.ID, l.ID}, Bytes: bs, Desc: desc(m.MediaType, bs)}
+		im := &dag.Node{ID: len(g.Nodes), Kind: dag.KImage, Subject: -1, TwinOf: -1, Succ: succ, Bytes: bs, Desc: desc(m.MediaType, bs)}
 		g.Nodes = append(g.Nodes, im)
 		members = append(members, im.ID)
 		ix.Manifests = append(ix.Manifests, im.Desc)
